@@ -182,6 +182,9 @@ func (m *Machine) concretize(t *Term, why string) uint64 {
 		}
 		m.budgetDecision()
 		m.res.Decisions++
+		if whyLog != nil {
+			whyLog(m, "concretize: "+why)
+		}
 		if n >= m.cfg.MaxConcretize {
 			panic(pathEnd{kind: "budget", msg: fmt.Sprintf("more than %d feasible values for %s", m.cfg.MaxConcretize, why)})
 		}
@@ -261,6 +264,9 @@ func (m *Machine) pick(n int, why string) int {
 		}
 		m.pos++
 		m.trace = append(m.trace, d)
+		if pickLog != nil && (d.V != 0 || pickLogAll) {
+			pickLog(m, why, int(d.V)) // model_picklog.go
+		}
 		return int(d.V)
 	}
 	m.budgetDecision()
